@@ -1,5 +1,6 @@
 # SPDX-License-Identifier: MIT
 import datetime
+import html
 import inspect
 import mimetypes
 import os
@@ -43,7 +44,7 @@ def make_xml_attrib(attrib_name: str, attrib_val: Optional[Any]) -> str:
     if attrib_val is None:
         return ""
 
-    return f' {attrib_name}="{attrib_val}"'
+    return f' {attrib_name}="{html.escape(str(attrib_val), quote=True)}"'
 
 
 def make_bool_xml_attrib(attrib_name: str, attrib_val: Optional[bool]) -> str:
